@@ -16,6 +16,7 @@ import (
 	"regexp"
 	"sort"
 	"strings"
+	"sync"
 	"time"
 
 	"github.com/goose-lang/goose"
@@ -43,6 +44,37 @@ type TrPlan struct {
 	TypeCheck     bool   `json:"typecheck,omitempty"`
 	SrcComments   bool   `json:"source_comments,omitempty"`
 	SkipIfaces    bool   `json:"skip_interfaces,omitempty"`
+	// ExtraFlags (binary runs): boolean flags that this tree's cmd/goose lists
+	// in its usage text and that the shipped command does not have. What they
+	// print is unknown, so stderr is not compared for such plans; exit status,
+	// files and (race flavour) the absence of race reports still are.
+	ExtraFlags []string `json:"extra_flags,omitempty"`
+}
+
+var (
+	extraFlagsOnce sync.Once
+	extraBoolFlags []string
+	boolFlagLine   = regexp.MustCompile(`^  -([A-Za-z0-9][A-Za-z0-9_.-]*)(\t.*)?$`)
+)
+
+// discoverFlags asks the built command for its usage text: a boolean flag is
+// listed on a line of its own.
+func discoverFlags() []string {
+	extraFlagsOnce.Do(func() {
+		bin := os.Getenv("VERIF_C06_GOOSE")
+		if bin == "" {
+			return
+		}
+		outb, _ := exec.Command(bin, "-h").CombinedOutput()
+		known := map[string]bool{"ignore-errors": true, "skip-interfaces": true, "source-comments": true, "typecheck": true, "h": true, "help": true}
+		for _, l := range strings.Split(string(outb), "\n") {
+			if m := boolFlagLine.FindStringSubmatch(l); m != nil && !known[m[1]] {
+				extraBoolFlags = append(extraBoolFlags, m[1])
+			}
+		}
+		sort.Strings(extraBoolFlags)
+	})
+	return extraBoolFlags
 }
 
 func (p TrPlan) config() goose.TranslationConfig {
@@ -193,6 +225,144 @@ func fineC(x uint64) uint64 { return fineA(x) * 2 }
 
 type twoConds struct {
 	a chan uint64
+}
+`},
+	// seven conversion errors each: together errsA and errsB exceed any
+	// per-invocation limit of ten that a tree might introduce, alone they do not
+	"errsA": {"errsA.go": `package errsA
+
+func fine(x uint64) uint64 { return x + 1 }
+
+func bad1(x uint64) uint64 {
+	if x > 1 {
+		goto done
+	}
+	x = x + 1
+done:
+	return x
+}
+
+func bad2(x uint64) uint64 {
+	if x > 2 {
+		goto done
+	}
+	x = x + 1
+done:
+	return x
+}
+
+func bad3(x uint64) uint64 {
+	if x > 3 {
+		goto done
+	}
+	x = x + 1
+done:
+	return x
+}
+
+func bad4(x uint64) uint64 {
+	if x > 4 {
+		goto done
+	}
+	x = x + 1
+done:
+	return x
+}
+
+func bad5(x uint64) uint64 {
+	if x > 5 {
+		goto done
+	}
+	x = x + 1
+done:
+	return x
+}
+
+func bad6(x uint64) uint64 {
+	if x > 6 {
+		goto done
+	}
+	x = x + 1
+done:
+	return x
+}
+
+func bad7(x uint64) uint64 {
+	if x > 7 {
+		goto done
+	}
+	x = x + 1
+done:
+	return x
+}
+`},
+	// seven conversion errors each: together errsA and errsB exceed any
+	// per-invocation limit of ten that a tree might introduce, alone they do not
+	"errsB": {"errsB.go": `package errsB
+
+func fine(x uint64) uint64 { return x + 1 }
+
+func bad1(x uint64) uint64 {
+	if x > 1 {
+		goto done
+	}
+	x = x + 1
+done:
+	return x
+}
+
+func bad2(x uint64) uint64 {
+	if x > 2 {
+		goto done
+	}
+	x = x + 1
+done:
+	return x
+}
+
+func bad3(x uint64) uint64 {
+	if x > 3 {
+		goto done
+	}
+	x = x + 1
+done:
+	return x
+}
+
+func bad4(x uint64) uint64 {
+	if x > 4 {
+		goto done
+	}
+	x = x + 1
+done:
+	return x
+}
+
+func bad5(x uint64) uint64 {
+	if x > 5 {
+		goto done
+	}
+	x = x + 1
+done:
+	return x
+}
+
+func bad6(x uint64) uint64 {
+	if x > 6 {
+		goto done
+	}
+	x = x + 1
+done:
+	return x
+}
+
+func bad7(x uint64) uint64 {
+	if x > 7 {
+		goto done
+	}
+	x = x + 1
+done:
+	return x
 }
 `},
 	// a struct used by its defining package and by an importing package that
@@ -449,6 +619,7 @@ func goldenFor(p *TrPlan, pattern string) (trResult, string) {
 	q := *p
 	q.Patterns = []string{pattern}
 	q.Binary, q.IgnoreErrors, q.PriorOut, q.FileOrderSeed = true, true, "", 0
+	q.ExtraFlags = nil // the golden is the plain command: what other flags print is unknown
 	r := runGooseBinary(&q, simrt.MainTape{}, nil)
 	if r.infra != "" {
 		return trResult{}, "golden (fresh process) of " + pattern + ": " + r.infra
@@ -518,7 +689,8 @@ func (c06) Gen(rng *simrt.Rand, tier string, run int) interface{} {
 	if p.Module == "scratch" && rng.Chance(1, 4) {
 		// related packages translated together (shared types, shared imports)
 		group := [][]string{{"./synth/item", "./synth/cart"}, {"./synth/cart", "./synth/item"}, {"./synth/ffiapp1", "./synth/ffiapp2"},
-			{"./synth/ffistore", "./synth/ffiapp2", "./synth/ffiapp1"}, {"./synth/multi", "./synth/fwd", "./synth/errs2"}}[rng.Intn(5)]
+			{"./synth/ffistore", "./synth/ffiapp2", "./synth/ffiapp1"}, {"./synth/multi", "./synth/fwd", "./synth/errs2"},
+			{"./synth/errsA", "./synth/errsB"}, {"./synth/errsB", "./synth/errs2", "./synth/errsA"}}[rng.Intn(7)]
 		p.Patterns = append(append([]string{}, group...), p.Patterns[:rng.Intn(len(p.Patterns)+1)]...)
 		seen := map[string]bool{}
 		var uniq []string
@@ -561,12 +733,23 @@ func (c06) Gen(rng *simrt.Rand, tier string, run int) interface{} {
 			p.Patterns[0] = rng.PickStr("./synth/errs2", "./synth/multi", "./synth/errs2")
 		}
 	}
-	if run%16 == 5 && os.Getenv("VERIF_C06_GOOSE") != "" {
+	// whole-binary plans: one in sixteen; one in four when this tree's command
+	// has flags the shipped one does not (nothing else exercises them)
+	binaryPlan := run%16 == 5
+	if len(discoverFlags()) > 0 && run%4 == 1 {
+		binaryPlan = true
+	}
+	if binaryPlan && os.Getenv("VERIF_C06_GOOSE") != "" {
 		p.Binary = true
 		p.IgnoreErrors = rng.Chance(1, 3)
 		p.PriorOut = rng.PickStr("", "", "longer", "same")
 		if len(p.Patterns) > 4 {
 			p.Patterns = p.Patterns[:4]
+		}
+		for _, f := range discoverFlags() {
+			if rng.Chance(1, 2) {
+				p.ExtraFlags = append(p.ExtraFlags, f)
+			}
 		}
 	}
 	return p
@@ -723,6 +906,46 @@ type binResult struct {
 	files  map[string]string
 	tape   simrt.MainTape
 	infra  string
+	// races: ThreadSanitizer reports of the command (race flavour), cut out of stderr
+	races []string
+}
+
+// splitRaceReports cuts the race detector's reports ("WARNING: DATA RACE" up
+// to the closing line of equals signs) out of the command's stderr.
+func splitRaceReports(stderr string) (rest string, reports []string) {
+	if !strings.Contains(stderr, "WARNING: DATA RACE") {
+		return stderr, nil
+	}
+	var keep, cur []string
+	in := false
+	lines := strings.Split(stderr, "\n")
+	for i, l := range lines {
+		switch {
+		case !in && l == "==================" && i+1 < len(lines) && strings.HasPrefix(lines[i+1], "WARNING: DATA RACE"):
+			in = true
+			cur = []string{l}
+		case in:
+			cur = append(cur, l)
+			if l == "==================" {
+				reports = append(reports, strings.Join(cur, "\n"))
+				in = false
+			}
+		default:
+			if !strings.HasPrefix(l, "Found ") || !strings.Contains(l, "data race(s)") {
+				keep = append(keep, l)
+			}
+		}
+	}
+	if in {
+		reports = append(reports, strings.Join(cur, "\n"))
+	}
+	return strings.Join(keep, "\n"), reports
+}
+
+// raceInCodeUnderTest: a report counts only if it has a frame in the tree under
+// test and does not involve the simulator's scheduler goroutine.
+func raceInCodeUnderTest(report string) bool {
+	return strings.Contains(report, repoDir()+"/") && !strings.Contains(report, "startScheduler")
 }
 
 var ansi = regexp.MustCompile("\x1b\\[[0-9;]*m")
@@ -761,9 +984,16 @@ func runGooseBinary(p *TrPlan, mt simrt.MainTape, prior map[string]string) binRe
 	if p.IgnoreErrors {
 		args = append(args, "-ignore-errors")
 	}
+	for _, f := range p.ExtraFlags {
+		args = append(args, "-"+f)
+	}
 	args = append(args, p.Patterns...)
-	cmd := exec.Command(os.Getenv("VERIF_C06_GOOSE"), args...)
-	cmd.Env = append(os.Environ(), "VERIF_SIM_TAPE="+tapeFile, "VERIF_SIM_OUT="+outFile, "NO_COLOR=1")
+	bin := os.Getenv("VERIF_C06_GOOSE")
+	if rb := os.Getenv("VERIF_C06_GOOSE_RACE"); simrt.RaceEnabled && rb != "" {
+		bin = rb
+	}
+	cmd := exec.Command(bin, args...)
+	cmd.Env = append(os.Environ(), "VERIF_SIM_TAPE="+tapeFile, "VERIF_SIM_OUT="+outFile, "NO_COLOR=1", "GORACE=halt_on_error=0 exitcode=0")
 	var stderr bytes.Buffer
 	cmd.Stderr = &stderr
 	err = cmd.Run()
@@ -773,6 +1003,7 @@ func runGooseBinary(p *TrPlan, mt simrt.MainTape, prior map[string]string) binRe
 	}
 	r.exit = cmd.ProcessState.ExitCode()
 	r.stderr = ansi.ReplaceAllString(stderr.String(), "")
+	r.stderr, r.races = splitRaceReports(r.stderr)
 	r.files = map[string]string{}
 	root := filepath.Join(work, "out")
 	filepath.Walk(root, func(path string, info os.FileInfo, err error) error {
@@ -844,6 +1075,13 @@ func execBinary(p *TrPlan, tape *simrt.Tape, keepLog bool) harness.RunOut {
 			out.Violation = &harness.Violation{Oracle: oracle, Key: oracle + "/binary", Msg: fmt.Sprintf("cmd/goose %v (module %s): %s", p.Patterns, p.Module, msg)}
 		}
 	}
+	for _, rr := range append(append([]string{}, g.races...), r.races...) {
+		if raceInCodeUnderTest(rr) {
+			out.Probes["binary_race_reports"]++
+			fail("tr.race", "the race detector reports a data race in the command: "+rr[:min(len(rr), 1800)])
+			return out
+		}
+	}
 	if len(r.tape.Panics) > 0 || r.exit == 2 {
 		fail("tr.panic", fmt.Sprintf("the command crashed (exit %d): %v %s", r.exit, r.tape.Panics, clipStr(r.stderr)))
 		return out
@@ -852,7 +1090,9 @@ func execBinary(p *TrPlan, tape *simrt.Tape, keepLog bool) harness.RunOut {
 		fail("tr.errors", fmt.Sprintf("exit status %d under this schedule, %d under the sequential schedule", r.exit, g.exit))
 		return out
 	}
-	if r.stderr != g.stderr {
+	if len(p.ExtraFlags) > 0 {
+		out.Probes["binary_runs_with_discovered_flags"]++
+	} else if r.stderr != g.stderr {
 		fail("tr.errors", "stderr differs from the sequential schedule: "+firstDiff(r.stderr, g.stderr))
 		return out
 	}
